@@ -181,3 +181,56 @@ def relogin_after_failure(chk, suite):
             if what:
                 chk.violation(suite, '%s:relogin:%d:%s' % (suite, pv, via), {'case': {'proto': pv, 'reconnect': via}, 'observed': what},
                               'protocol %d, encrypted session dropped by the server, reconnect by %s, encryption requested again: %s' % (pv, via, what))
+
+
+def key_exchange_with_pending_writes(chk, suite):
+    """The encryption request arrives in the same burst as a login plugin request, so an answer is still queued when the key
+    exchange is handled: the encryption response is the one frame that must go out at once and in the clear (the server cannot
+    read anything encrypted before it has the secret); everything after it is ciphertext."""
+    from minecraft.networking.connection import Connection
+    for pv in (393, 578, 757):
+        ids = proto.Ids(pv)
+        for n_plugin in (1, 3):
+            steps = [('plugin', 40 + k, 'a:b', b'x') for k in range(n_plugin)] + [('enc', '-', b'tokn'), ('success',), ('ka', 9)]
+            frames, cut = c10.build_server(ids, steps)
+            plain = b''.join(frames)
+            wire = plain[:cut] + bytes(run_model([('mc_encrypt', [SECRET, [plain[cut:]]])])[0][0])
+            net = sim.Net([sim.Server([wire], end='idle')], urandom=SECRET).install()
+            excs = []
+            try:
+                conn = Connection('localhost', 25565, username='user', allowed_versions={pv}, handle_exception=lambda e, i: excs.append(e))
+                conn.connect()
+                net.run_threads(conn)
+            except Exception as e:
+                excs.append(e)
+            finally:
+                net.uninstall()
+            chk.count(suite, ['pending-writes', pv, n_plugin], True)
+            data = b''.join(net.servers[0].sends)
+            what = None
+            try:
+                # plaintext: handshake, login start, then - in some order - the plugin responses and the encryption response; the
+                # encryption response is the last plaintext frame
+                i, heads = 0, []
+                while i < len(data) and len(heads) < 3 + n_plugin:
+                    ln, j = proto.rd_varint(data, i)
+                    pid, _q = proto.rd_varint(data, j)
+                    heads.append(pid)
+                    i = j + ln
+                    if pid == ids.sb_encryption_response and len(heads) > 2:
+                        break
+                ct = data[i:]
+                pt = bytes(run_model([('mc_decrypt', [SECRET, [ct]])])[0][0]) if ct else b''
+                later = [pid for pid, _b in proto.parse_frames(pt)] if pt else []
+                if excs:
+                    what = 'errors %s' % [exn_name(e) for e in excs]
+                elif ids.sb_encryption_response not in heads[2:]:
+                    what = 'no encryption response among the plaintext frames (ids %s)' % [hex(h) for h in heads]
+                elif sorted(heads[2:] + later) != sorted([ids.sb_plugin_response] * n_plugin + [ids.sb_encryption_response, ids.sb_keep_alive]):
+                    what = 'plaintext frames %s, then under the cipher %s; expected %d plugin responses, the encryption response and one keep-alive answer' % (
+                        [hex(h) for h in heads], [hex(h) for h in later], n_plugin)
+            except Exception as e:
+                what = 'what the server received does not parse as plaintext frames up to the encryption response and ciphertext after it: %s' % exn_name(e)
+            if what:
+                chk.violation(suite, '%s:pending-writes:%d:%d' % (suite, pv, n_plugin), {'case': {'proto': pv, 'plugin_requests_before_the_key_exchange': n_plugin}, 'observed': what},
+                              'protocol %d, %d login plugin request(s) and the encryption request in one burst: %s' % (pv, n_plugin, what))
